@@ -12,6 +12,7 @@ use std::sync::Mutex;
 pub fn check_entry(e: &'static Entry, ctx: &Ctx) -> DeclReport {
     match ctx.prop.as_str() {
         "C01" => with_entry!(e, vt => props::c01::check(vt, ctx)),
+        "C02" => with_entry!(e, vt => props::c02::check(vt, ctx)),
         "C03" => with_entry!(e, vt => props::c03::check(vt, ctx)),
         "C04" => with_entry!(e, vt => props::c04::check(vt, ctx)),
         "C06" => with_entry!(e, vt => props::c06::check(vt, ctx)),
